@@ -104,6 +104,9 @@ def dispatch(run, f):
         nt, wt = _role(f, api, "nt"), _role(f, api, "wt")
         if not run.require(nt is not None and wt is not None, "O17.2", "dispatch-body:%s" % api, "cannot identify the two private primitives (no timeout / timeout) called by %s" % api, "found"):
             continue
+        if nt == api:
+            _dispatch_inline_nt(run, f, api, wt)
+            continue
         # the logic body (with `tracing` the fn is wrapped: look for the body that calls the callees)
         cands = [b for b in f.family(A + api) if any(callee(k.term) in (A + nt, A + wt) for k in live_calls(b))]
         if not run.require(len(cands) == 1, "O17.2", "dispatch-body:%s" % api, "cannot find the dispatching body of %s" % api, "found"):
@@ -143,6 +146,46 @@ def dispatch(run, f):
         members = set(ret[1]) if ret[0] == "phi" else {ret}
         run.require(all(m[0] == "call" and m[2] in (A + nt, A + wt) for m in members) and len(members) == 2, "O17.2", "dispatch-result:%s" % api,
                     "%s does not return the callee's result unchanged: %s" % (api, show(ret)), "returns the callee's result unchanged")
+
+
+def _dispatch_inline_nt(run, f, api, wt):
+    """The no-timeout primitive inlined into the public function: `match timeout { Some(d) => self.wt(msg, d), None => { <enqueue> } }`.
+    Same obligations as for the call form: the timeout primitive is called exactly under Some(d) with (self, msg, d), the
+    blocking enqueue sits exactly under None."""
+    sp = sendpaths.get(f)
+    cands = [b for b in f.family(A + api) if any(callee(k.term) == A + wt for k in live_calls(b))]
+    if not run.require(len(cands) == 1, "O17.2", "dispatch-body:%s" % api, "cannot find the dispatching body of %s" % api, "found"):
+        return
+    b = cands[0]
+    run.count_body(b)
+    tr = tracer_of(b)
+
+    def arm_of(bb):
+        g = [(kind, sp.resolve_to_root_param(b, subj), arm) for kind, subj, arm, _ in sp.guards(b, bb) if kind == "discr"]
+        return [x[2] for x in g if x[1][0] == "param" and x[1][2] == 3]
+    good = True
+    n_wt = 0
+    for k in live_calls(b):
+        if callee(k.term) != A + wt:
+            continue
+        n_wt += 1
+        args = [tr.norm(a) for a in tr.call_args(k.idx)]
+        who = sp.resolve_to_root_param(b, args[0])
+        msg = sp.resolve_to_root_param(b, args[1])
+        d = strip_wrappers(args[2]) if len(args) > 2 else None
+        okd = d is not None and d[0] == "field" and d[2][0] == "downcast" and d[2][1] == "Some"
+        if okd:
+            src = sp.resolve_to_root_param(b, d[2][2])
+            okd = src[0] == "param" and src[2] == 3
+        good = good and who[0] == "param" and who[2] == 1 and msg[0] == "param" and msg[2] == 2 and okd and arm_of(k.idx) == ["Some"]
+    enq = [s2 for s2, m in sp.mailbox_ops if s2.body.name == b.name and m in ("send", "blocking_send", "try_send", "send_timeout")]
+    good = good and n_wt == 1 and len(enq) == 1 and arm_of(enq[0].bb) == ["None"]
+    run.require(good, "O17.2", "dispatch:%s" % api, "%s does not dispatch None => <blocking enqueue in place>, Some(d) => %s(self,msg,d)" % (api, wt),
+                "None => blocking enqueue in place; Some(d) => %s(self, msg, d)" % wt)
+    ret = norm_try(tr, tr.local(0))
+    members = set(ret[1]) if ret[0] == "phi" else {ret}
+    run.require(any(m[0] == "call" and m[2] == A + wt for m in members), "O17.2", "dispatch-result:%s" % api, "%s does not return the result of %s unchanged: %s" % (api, wt, show(ret)),
+                "the Some arm returns the timeout primitive's result unchanged; the None arm is the primitive itself (sibling rules apply to the in-place code)")
 
 
 def thread_closures(f, sp):
